@@ -222,25 +222,31 @@ func c11Gossip() {
 		}
 	case <-time.After(5 * time.Second):
 	}
-	if err := sender.Broadcast(ctx, chain[1]); err != nil {
-		second = "broadcasterr"
-	}
-	select {
-	case h := <-entered:
-		if h == 2 {
-			second = "seen"
+	// (gossip latency is no part of the property: the second header is broadcast until the receiver's verifier has seen it;
+	// every broadcast is a new message)
+	for attempt := 0; attempt < 6 && second != "seen"; attempt++ {
+		if err := sender.Broadcast(ctx, chain[1]); err != nil {
+			second = "broadcasterr"
+			break
 		}
-	case <-time.After(4 * time.Second):
+		select {
+		case h := <-entered:
+			if h == 2 {
+				second = "seen"
+			}
+		case <-time.After(2 * time.Second):
+		}
 	}
 	close(release)
-	delivered := 0
-	for i := 0; i < 2; i++ {
-		rctx, rcancel := context.WithTimeout(ctx, 3*time.Second)
+	distinct := map[uint64]bool{}
+	for i := 0; i < 12 && len(distinct) < 2; i++ {
+		rctx, rcancel := context.WithTimeout(ctx, 1500*time.Millisecond)
 		if h, err := rsub.NextHeader(rctx); err == nil && h != nil && (h.H == 1 || h.H == 2) {
-			delivered++
+			distinct[h.H] = true
 		}
 		rcancel()
 	}
+	delivered := len(distinct)
 	emit("C11 kind=gossip => first=%s second=%s delivered=%d", first, second, delivered)
 }
 
@@ -339,26 +345,31 @@ func c11Restart(restarts int) {
 	defer bsub.Cancel()
 	bin, _ := chain[0].MarshalBinary()
 	_ = topic.Publish(ctx, []byte("definitely not a header"), pubsub.WithReadiness(pubsub.MinTopicSize(1)))
-	_ = topic.Publish(ctx, bin, pubsub.WithReadiness(pubsub.MinTopicSize(1)))
+	// the valid header is published until it arrives (gossip latency is no part of the property; every publication is a new
+	// message); whatever is delivered is collected: it must be that header and nothing else
+	seen := map[string]bool{}
 	var got []string
 	crashed := 0
-	for i := 0; i < 2; i++ {
-		func() {
-			defer func() {
-				if recover() != nil {
-					crashed = 1
-				}
-			}()
-			rctx, rcancel := context.WithTimeout(ctx, 1500*time.Millisecond)
-			defer rcancel()
-			h, err := rsub.NextHeader(rctx)
-			if err == nil && h != nil {
-				got = append(got, utoa(h.H))
+	read := func(wait time.Duration) {
+		defer func() {
+			if recover() != nil {
+				crashed = 1
 			}
 		}()
-		if crashed == 1 {
-			break
+		rctx, rcancel := context.WithTimeout(ctx, wait)
+		defer rcancel()
+		h, err := rsub.NextHeader(rctx)
+		if err == nil && h != nil && !seen[utoa(h.H)] {
+			seen[utoa(h.H)] = true
+			got = append(got, utoa(h.H))
 		}
+	}
+	for attempt := 0; attempt < 8 && crashed == 0 && !seen["1"]; attempt++ {
+		_ = topic.Publish(ctx, bin, pubsub.WithReadiness(pubsub.MinTopicSize(1)))
+		read(900 * time.Millisecond)
+	}
+	if crashed == 0 {
+		read(300 * time.Millisecond) // anything else that slipped through
 	}
 	d := strings.Join(got, ",")
 	if d == "" {
